@@ -13,6 +13,9 @@ const Enabled = false
 // Fork is called by a goroutine right before it spawns another one.
 func Fork() uint64 { return 0 }
 
+// ForkNamed is Fork for a goroutine that is identified by content rather than by position.
+func ForkNamed(label string) uint64 { return 0 }
+
 // Start is the first call in the body of a goroutine announced by Fork.
 func Start(tok uint64) {}
 
